@@ -4,8 +4,11 @@ Lifecycle.tla (two worlds of heap cells, Pickle = Project by value) is model-che
 configuration; its invariants are shown non-vacuous by refuting them on projections that share or drop one
 attribute; the labelled state graph of the bounded model (prefix . Pickle . suffix) is dumped and replayed as a
 transition tour on real gemseo objects built from the constructor catalogue (c20_catalog.py) x cache type x
-grammar type, through pickle.dumps/loads, gemseo.utils.pickle.to_pickle/from_pickle and a round trip through
-a second interpreter (c20_replay.py, c20_child.py).
+grammar type, through pickle.dumps/loads, gemseo.utils.pickle.to_pickle/from_pickle, a round trip through
+a second interpreter, and a restoration IN a second interpreter with another string-hash seed where the rest of
+the behaviour is performed (c20_replay.py, c20_child.py).  Behaviours with several Pickles (generations:
+restore - edit defaults / required names / settings - pickle again) come from the same module with MaxGen > 1.
+The replays are distributed over forked worker processes.
 """
 from __future__ import annotations
 
@@ -22,7 +25,9 @@ from . import c20_replay as rp
 INVS = ["TypeOK", "LastEntryByValue", "SameBehaviour", "SameState", "CountersByValue", "NoSharing", "StaysAttached",
         "OrigOwnsCell1"]
 ACTIONS = ("Execute", "Linearize", "SetDefault", "SetSetting", "SetCache", "ClearCache", "Pickle")
-METHODS = ("dumps", "file", "spawn")
+EDITS = ("DelDefault", "ClearDefaults", "Unrequire")
+METHODS = ("dumps", "file", "spawn", "session")
+N_WORKERS = 4
 
 # configurations of Lifecycle.tla (AllConfigs): name -> FileMode
 CONFIGS = {"simple": "shared", "mem": "shared", "hdf-snapshot": "snapshot", "hdf-shared": "shared",
@@ -34,13 +39,20 @@ def log(msg):
         print(msg, file=sys.stderr, flush=True)
 
 
+def tla_set(items):
+    return "{" + ", ".join(f'"{n}"' for n in items) + "}"
+
+
 def cfg(names, pre, suf, *, shared="{}", dropped="{}", methods=METHODS, props=True, has_default=True,
-        last_from_newest=False):
+        last_from_newest=False, gens=1, mid=0, acts=ACTIONS[:6], last_acts=None, resurrect=False):
     s = ("CONSTANTS X = {1, 2}\n DV = {0, 1}\n"
-         " ConfNames = {" + ", ".join(f'"{n}"' for n in names) + "}\n"
+         " ConfNames = " + tla_set(names) + "\n"
          f" HasDefault = {'TRUE' if has_default else 'FALSE'}\n"
-         f" MaxPre = {pre}\n MaxSuf = {suf}\n"
-         " Methods = {" + ", ".join(f'"{m}"' for m in methods) + "}\n"
+         f" MaxPre = {pre}\n MaxSuf = {suf}\n MaxGen = {gens}\n MaxMid = {mid}\n"
+         " Methods = " + tla_set(methods) + "\n"
+         " ActNames = " + tla_set(acts) + "\n LastActNames = " + tla_set(last_acts or acts) + "\n"
+         ' ClearHows = {"clear", "assign"}\n'
+         f" Resurrect = {'TRUE' if resurrect else 'FALSE'}\n"
          f" Shared = {shared}\n Dropped = {dropped}\n LastFromNewest = {'TRUE' if last_from_newest else 'FALSE'}\n"
          "SPECIFICATION Spec\nCHECK_DEADLOCK FALSE\n")
     for i in INVS:
@@ -57,7 +69,9 @@ class SubGraph:
     def __init__(self, g: Graph, conf, banned=()):
         self.states = g.states
         self.init = [i for i in g.init if g.states[i]["conf"]["name"] == conf]
-        edges = [e for e in g.edges if e[2] not in banned and g.states[e[0]]["conf"]["name"] == conf]
+        # (TLC's dump repeats an edge once per way of generating it: a tour over the repeats replays twice)
+        edges = list({(e[0], e[1], e[2], e[3]): e for e in g.edges
+                      if e[2] not in banned and g.states[e[0]]["conf"]["name"] == conf}.values())
         succ = {}
         for s, d, a, args in edges:
             succ.setdefault(s, []).append(d)
@@ -91,6 +105,39 @@ def has_pickle(g, path):
     return any(g.edges[k][2] == "Pickle" for k in path)
 
 
+def n_pickles(g, path):
+    return sum(1 for k in path if g.edges[k][2] == "Pickle")
+
+
+def two_generations(g, path):
+    return n_pickles(g, path) >= 2
+
+
+def older_last(g, path):
+    """The behaviour pickles a cache whose last written entry is not its newest one."""
+    for k in path:
+        if g.edges[k][2] == "Pickle":
+            st = g.states[g.edges[k][0]]
+            c = st["cache"][0]
+            e = st["files"][c["file"] - 1] if c["kind"] == "hdf" else c   # where the entries are
+            return c["hasLast"] and e["hasNew"] and tuple(c["last"]) != tuple(e["newest"])
+    return False
+
+
+def shape(g, path):
+    """Stratum of a behaviour: the actions of the restored object between the first and the last Pickle, and
+    what the last Pickle carries in the grammar cell (sampling takes every stratum in turn)."""
+    ks = [i for i, k in enumerate(path) if g.edges[k][2] == "Pickle"]
+    if len(ks) < 2:
+        return ()
+    gr = g.states[g.edges[path[ks[-1]]][1]]["gram"][0]
+    return (tuple(g.edges[k][2] for k in path[ks[0] + 1:ks[-1]] if g.edges[k][2] != "Pickle"),
+            gr["has"], gr["req"], gr["rest"])
+
+
+SELECT = {"older_last": older_last, "two_generations": two_generations, None: None}
+
+
 def with_method(g, path, how):
     """The isomorphic path that pickles with another method: Pickle(m) has the same effect for every m, the
     graph holds one Pickle edge per method from the same state; follow the same action labels from there."""
@@ -116,38 +163,167 @@ def with_method(g, path, how):
     return out
 
 
+# ------------------------------------------------------------------ replay jobs (run in forked workers)
+_CTX = {}      # set by run() before the workers are forked: ck, graph_of, entries
+_LOCAL = {}    # per worker process: interpreters, tours, work directory
+
+
+def _local(ck):
+    if _LOCAL.get("pid") != os.getpid():
+        _LOCAL.clear()
+        _LOCAL.update(pid=os.getpid(), child=rp.Children(), tours={}, work=ck.work / f"w{os.getpid()}")
+        _LOCAL["work"].mkdir(parents=True, exist_ok=True)
+        cat.WORK = str(_LOCAL["work"])
+    return _LOCAL
+
+
+def tour_of(conf, banned):
+    loc = _local(_CTX["ck"])
+    key = (conf, tuple(sorted(banned)))
+    if key not in loc["tours"]:
+        gsrc, name = _CTX["graph_of"][conf]
+        g = SubGraph(gsrc, name, banned)
+        loc["tours"][key] = (g, g.tour())
+    return loc["tours"][key]
+
+
+def run_job(job):
+    """One slot of the replay plan: class x grammar type x configuration, the whole tour or a seeded sample of the
+    behaviours that reach Pickle (among those satisfying `select`, stratified by `shape` for the generations)."""
+    ck = _CTX["ck"]
+    loc = _local(ck)
+    entry = next(e for e in _CTX["entries"] if e.name == job["entry"])
+    gt, conf, n_max, select = job["gt"], job["conf"], job["n"], SELECT[job.get("select")]
+    chunk, n_chunks = job.get("chunk", (0, 1))
+    # what this job adds to the check is sent back as a delta
+    v0, o0, t0, s0 = len(ck.violations), len(ck.observations), ck.traces, len(ck.samples)
+    k0 = dict(ck.known_hits)
+    res = {"job": job, "report": None, "pickles": {}, "gen_pickles": {}, "probes": 0, "outside": [], "paths": 0,
+           "exhaustive": None, "remote_steps": 0, "expected_errors": 0, "log": ""}
+    t_start = time.time()
+
+    def done():
+        res.update(violations=ck.violations[v0:], observations=ck.observations[o0:], traces=ck.traces - t0,
+                   samples=ck.samples[s0:],
+                   known={k: v - k0.get(k, 0) for k, v in ck.known_hits.items() if v != k0.get(k, 0)})
+        return res
+
+    banned = set()
+    if not entry.has_jac:
+        banned.add("Linearize")
+    ad = rp.ADAPTERS[entry.adapter](entry, gt, loc["work"])
+    banned.update(ad.banned)
+    try:
+        ad.fresh()  # binds the abstract inputs to real names / values
+    except Exception as ex:  # noqa: BLE001
+        res["report"] = f"not built: {type(ex).__name__}: {str(ex)[:80]}"
+        return done()
+    if entry.pname is None:
+        banned.update(("SetDefault",) + EDITS)
+    g, paths = tour_of(conf, banned)
+    fm = CONFIGS[_CTX["graph_of"][conf][1]]
+    r = rp.Replayer(ck, ad, g, config=conf, file_mode=fm, child=loc["child"])
+    gens = conf.startswith("gen")
+    if n_max is None and select is None:
+        chosen = [i for i in range(len(paths)) if i % n_chunks == chunk]
+    else:
+        withp = [i for i, p in enumerate(paths) if has_pickle(g, p) and (select is None or select(g, p))]
+        if n_max is None:
+            n_max = len(withp)
+        rng = random.Random(f"{ck.seed}/{entry.name}/{gt}/{conf}")
+        rng.shuffle(withp)
+        if gens:
+            # every stratum (edits between the two Pickles x what the second Pickle carries) in turn
+            strata = {}
+            for i in withp:
+                strata.setdefault(shape(g, paths[i]), []).append(i)
+            keys = sorted(strata, key=repr)
+            rng.shuffle(keys)
+            withp = [strata[k][j] for j in range(max(map(len, strata.values()), default=0)) for k in keys
+                     if j < len(strata[k])]
+        chosen = sorted(withp[:n_max])
+    done_n = bad = 0
+    for j, i in enumerate(chosen):
+        if gens:
+            # the graph of the generations is dumped for one method: Pickle(m) is the same step for every m
+            m = (i + j) % (len(METHODS) ** 2)
+            path, hows = paths[i], [METHODS[m % len(METHODS)], METHODS[m // len(METHODS)]] + list(METHODS)
+        else:
+            path, hows = with_method(g, paths[i], METHODS[(i + j) % len(METHODS)]), None
+        ok = r.run(path, hows)
+        done_n += 1
+        bad += 0 if ok else 1
+        if done_n <= 1 and entry.name in ("Sellar1", "AnalyticDiscipline", "JSONGrammar"):
+            ck.sample({"class": entry.name, "grammar": gt, "config": conf,
+                       "behaviour": [[g.edges[k][2], list(g.edges[k][3])] for k in path]}, limit=10 ** 6)
+    ck.traces += done_n
+    res.update(paths=done_n, pickles=r.pickles, gen_pickles=r.gen_pickles, probes=r.probes,
+               outside=[dict(rec, grammar=gt) for rec in r.outside.values()],
+               remote_steps=r.remote_steps, expected_errors=r.expected_errors,
+               report={"behaviours": done_n, "of_tour": len(paths), "steps": r.steps, "stopped_by_violation": bad})
+    if n_max is None and select is None:
+        res["exhaustive"] = f"{entry.name}/{gt}/{conf}"
+    res["log"] = f"{entry.name} {gt} {conf}: {done_n} behaviours, {r.steps} steps, {bad} stopped, {time.time() - t_start:.0f}s"
+    return done()
+
+
+def _run_indexed(i):
+    return run_job(_CTX["jobs"][i])
+
+
+def _close_worker(_):
+    if _LOCAL.get("pid") == os.getpid() and _LOCAL.get("child") is not None:
+        _LOCAL["child"].close()
+    time.sleep(0.2)
+    return os.getpid()
+
+
 def run(ck: Check):
     ck.max_report = 12
     t_start = time.time()
+    # TLC runs that do not depend on each other are made 4 at a time (threads; one sub-directory each)
+    from concurrent.futures import ThreadPoolExecutor
+
+    T = ck.thorough
+    tasks = []   # (key, function of no argument)
 
     # ---- 1. the invariants are not vacuous: a projection that shares / drops one attribute is refuted
-    refuted = {}
     expect_shared = {"cache": "NoSharing", "ctr": "CountersByValue", "gram": "NoSharing", "data": "NoSharing",
                      "sett": "NoSharing"}
     muts = [(a, m) for a in ("cache", "ctr", "gram", "data", "sett") for m in ("shared", "dropped")]
-    if not ck.thorough:
+    if not T:
         muts = [("cache", "shared"), ("ctr", "shared"), ("gram", "dropped"), ("ctr", "dropped")]
+
+    def refute(tag, text, want, must_hold=False):
+        def task():
+            r = ck.tlc("Lifecycle", text, workers=1, timeout=600, count=False, coverage=False, expect_ok=False, tag=tag)
+            if must_hold:
+                if r.violated:
+                    raise MachineryError(f"Lifecycle [{tag}] should hold, TLC reported {r.violated}")
+            elif not r.violated or (want and r.violated not in want):
+                raise MachineryError(f"Lifecycle [{tag}] should be refuted ({want or 'SameBehaviour/...'}) "
+                                     f"but TLC reported {r.violated}")
+            return r.violated
+        tasks.append((("refuted", tag), task))
+
     for a, mode in muts:
-        r = ck.tlc("Lifecycle", cfg(["mem", "hdf-shared"], 2, 1, props=False, methods=("dumps",),
-                                     **{mode: '{"%s"}' % a}),
-                   workers=1, timeout=600, count=False, coverage=False, expect_ok=False)
-        want = expect_shared[a] if mode == "shared" else None
-        if not r.violated or (want and r.violated != want):
-            raise MachineryError(f"Lifecycle with {mode}={a} should be refuted ({want or 'SameBehaviour/...'}) "
-                                 f"but TLC reported {r.violated}")
-        refuted[f"{mode}:{a}"] = r.violated
+        refute(f"{mode}-{a}", cfg(["mem", "hdf-shared"], 2, 1, props=False, methods=("dumps",), **{mode: '{"%s"}' % a}),
+               (expect_shared[a],) if mode == "shared" else None)
     # ... and a projection that restores "the newest entry" as the last entry of the cache (history needed:
     # execute(x1); execute(x2); linearize(x1); pickle - prefix depth 3)
-    r = ck.tlc("Lifecycle", cfg(["mem"], 3, 0, props=False, methods=("dumps",), last_from_newest=True),
-               workers=1, timeout=600, count=False, coverage=False, expect_ok=False)
-    if r.violated != "LastEntryByValue":
-        raise MachineryError(f"Lifecycle with LastFromNewest should violate LastEntryByValue, TLC reported {r.violated}")
-    refuted["last-from-newest"] = r.violated
-    ck.extra["spec_mutations_refuted"] = refuted
-    log(f"non-vacuity {time.time() - t_start:.0f}s")
+    refute("last-from-newest", cfg(["mem"], 3, 0, props=False, methods=("dumps",), last_from_newest=True),
+           ("LastEntryByValue",))
+    # ... and a projection under which a grammar restored WITHOUT defaults takes those of the pickle it came from:
+    # indistinguishable with one Pickle (must hold), refuted as soon as a restored object is pickled again
+    gen_acts = ACTIONS[:4] + EDITS
+    refute("resurrected-defaults-1-generation",
+           cfg(["nocache"], 1, 0, props=False, methods=("dumps",), acts=gen_acts, resurrect=True), None, must_hold=True)
+    refute("resurrected-defaults-2-generations",
+           cfg(["nocache"], 1, 0, props=False, methods=("dumps",), acts=gen_acts, resurrect=True, gens=2, mid=1),
+           ("SameBehaviour", "SameState"))
 
     # ---- 2. exhaustive model checking + labelled graph, every configuration an initial state
-    if ck.thorough:
+    if T:
         groups = [(["simple", "mem"], 2, 2), (["hdf-snapshot", "hdf-shared"], 2, 2),
                   (["jacinrun", "jacinrun-hdf", "nocache", "db"], 2, 2),
                   (["stateful"], 3, 2), (["mem"], 3, 1, "mem-p3"), (["hdf-snapshot"], 3, 0, "hdf-p3")]
@@ -155,19 +331,57 @@ def run(ck: Check):
         # mem-p3: prefixes of depth 3 (Pickle is the last step): the shortest history after which the last
         # written entry of a keep-everything cache is not its newest one
         groups = [(["simple", "mem", "hdf-snapshot", "hdf-shared", "jacinrun", "stateful", "nocache", "db"], 2, 1),
-                  (["mem"], 3, 0, "mem-p3")]
+                  (["mem"], 3, 0, "mem-p3"), (["hdf-snapshot"], 3, 0, "hdf-p3")]
     graph_of = {}
     ck.extra["graphs"] = []
+
+    def dump(names, text, keys, require, what):
+        tag = "dump-" + "-".join(keys).replace(":", "_")
+
+        def task():
+            r = ck.tlc("Lifecycle", text, workers=2, timeout=900, dump=True, require_actions=require, tag=tag, count=False)
+            dot = ck.work / tag / "Lifecycle.dot"
+            g = Graph(dot)
+            dot.unlink()
+            log(f"graph {keys}: {len(g.states)} states {len(g.edges)} edges {time.time() - t_start:.0f}s")
+            return r, g, dict(what, configs=names, states=len(g.states), edges=len(g.edges))
+        tasks.append((("graph", tuple(zip(names, keys))), task))
+
     for names, p_, s_, *key in groups:
-        ck.tlc("Lifecycle", cfg(names, p_, s_), workers=4, timeout=900, dump=True,
-               require_actions=ACTIONS if "simple" in names else ACTIONS[:4] + ("Pickle",))
-        g = Graph(ck.work / "Lifecycle.dot")
-        (ck.work / "Lifecycle.dot").unlink()
-        for n in names:
-            graph_of[key[0] if key else n] = (g, n)
-        ck.extra["graphs"].append({"configs": names, "MaxPre": p_, "MaxSuf": s_, "states": len(g.states), "edges": len(g.edges)})
-        log(f"graph {names}: {len(g.states)} states {len(g.edges)} edges {time.time() - t_start:.0f}s")
-    if ck.thorough:
+        dump(names, cfg(names, p_, s_), [key[0]] if key else names,
+             ACTIONS if "simple" in names else ACTIONS[:4] + ("Pickle",), {"MaxPre": p_, "MaxSuf": s_, "MaxGen": 1})
+    # generations: prefix . Pickle . edits of the restored object . Pickle [. edits . Pickle] . observation
+    #   (dumped for one method: the methods of the successive Pickles are assigned in rotation by the replay)
+    obs = ("Execute", "Linearize")
+    gen_groups = [(["simple", "nocache"], True, ACTIONS[:6] + EDITS, 1, 2, 2),
+                  (["db", "stateful"], False, ACTIONS[:6], 1, 2, 2)]
+    if T:
+        gen_groups += [(["simple", "nocache"], True, ACTIONS[:4] + EDITS, 1, 1, 3, "3"),
+                       (["mem", "jacinrun"], True, ACTIONS[:6] + EDITS, 1, 2, 2)]
+    for names, hd, acts, p_, m_, g_, *suffix in gen_groups:
+        dump(names, cfg(names, p_, 1, methods=("dumps",), has_default=hd, gens=g_, mid=m_, acts=acts, last_acts=obs),
+             [f"gen{suffix[0] if suffix else ''}:{n}" for n in names],
+             (("Execute", "SetSetting", "Pickle") + (EDITS + ("SetDefault",) if hd else ())),
+             {"MaxPre": p_, "MaxMid": m_, "MaxSuf": 1, "MaxGen": g_})
+    # the largest graphs first
+    tasks.sort(key=lambda t: 0 if t[0][0] == "graph" else 1)
+    with ThreadPoolExecutor(4) as pool:
+        outcomes = list(pool.map(lambda t: t[1](), tasks))
+    refuted = {}
+    for (key, _), out in zip(tasks, outcomes):
+        if key[0] == "refuted":
+            if out:
+                refuted[key[1]] = out
+        else:
+            r, g, what = out
+            ck.states += r.distinct
+            ck.transitions += r.generated
+            for n, k in key[1]:
+                graph_of[k] = (g, n)
+            ck.extra["graphs"].append(what)
+    ck.extra["spec_mutations_refuted"] = refuted
+    log(f"TLC done {time.time() - t_start:.0f}s")
+    if T:
         # deeper, without the dump
         ck.extra["deep_runs"] = []
         for group, s_ in ((["simple", "stateful", "nocache"], 3), (["mem"], 3), (["hdf-shared"], 3),
@@ -186,132 +400,136 @@ def run(ck: Check):
                            require_actions=ACTIONS[:4])
             ck.extra["deep_runs"].append({"configs": group, "MaxPre": 3, "MaxSuf": s_, "distinct": r.distinct})
             log(f"deep {group} (3,{s_}) {time.time() - t_start:.0f}s")
+        # three generations with every edit, without the dump
+        r = ck.tlc("Lifecycle", cfg(["simple", "nocache"], 1, 1, methods=("dumps",), gens=3, mid=2,
+                                     acts=ACTIONS[:6] + EDITS, last_acts=obs), workers=4, timeout=900,
+                   require_actions=EDITS)
+        ck.extra["deep_runs"].append({"configs": ["simple", "nocache"], "MaxGen": 3, "MaxMid": 2, "distinct": r.distinct})
 
-    # ---- 3. replay on the real objects
-    child = rp.Children()
+    # ---- 3. replay on the real objects: the plan
     entries = cat.catalogue()
-    tours = {}
+    jobs = []
 
-    def tour_of(conf, banned):
-        key = (conf, tuple(sorted(banned)))
-        if key not in tours:
-            g = SubGraph(graph_of[conf][0], graph_of[conf][1], banned)
-            paths = g.tour()
-            tours[key] = (g, paths)
-        return tours[key]
+    def replay(entry, gt, conf, n_max=None, select=None, chunks=1):
+        for c in range(chunks):
+            jobs.append({"entry": entry.name, "gt": gt, "conf": conf, "n": n_max, "select": select,
+                         "chunk": (c, chunks)})
+
+    def named(name):
+        return next(e for e in entries if e.name == name)
+
+    # 3a. the core class: the whole transition tour where affordable, a large sample elsewhere
+    #     (every full cache costs a round trip to the multiprocessing manager: mem / hdf are slow)
+    core = named("Sellar1")
+    replay(core, cat.JSON, "simple", None, chunks=2 * N_WORKERS)
+    replay(core, cat.JSON, "hdf-snapshot", 1500 if T else 150)
+    replay(core, cat.JSON, "hdf-shared", 1000 if T else 120)
+    replay(core, cat.JSON, "mem", 300 if T else 40)
+    # every depth-3 history that leaves the last written entry of the memory cache older than its newest one
+    replay(core, cat.JSON, "mem-p3", 400 if T else None, select="older_last")
+    # the same histories with an HDF5Cache (finding D2003)
+    replay(core, cat.JSON, "hdf-p3", 60 if T else 6, select="older_last")
+    for name in ("MDAGaussSeidel", "AnalyticDiscipline", "MDOChain"):
+        replay(named(name), cat.JSON, "mem-p3", 24 if T else 8, select="older_last")
+    replay(core, cat.SIMPLE, "simple", None if T else 300, chunks=N_WORKERS if T else 1)
+    if T:
+        replay(core, cat.SIMPLE, "hdf-snapshot", 600)
+    # 3a'. generations on the core classes and on bare grammars of every grammar class
+    replay(core, cat.JSON, "gen:simple", 600 if T else 150, select="two_generations")
+    replay(core, cat.SIMPLE, "gen:simple", 200 if T else 40, select="two_generations")
+    replay(named("AnalyticDiscipline"), cat.JSON, "gen:simple", 300 if T else 60, select="two_generations")
+    for e in entries:
+        if e.adapter == "grammar":
+            replay(e, cat.JSON, "gen:nocache", 200 if T else 40, select="two_generations")
+            replay(e, cat.JSON, "nocache", 40 if T else 12)
+    if T:
+        replay(core, cat.JSON, "gen3:simple", 400, select="two_generations")
+        replay(named("JSONGrammar"), cat.JSON, "gen3:nocache", 300, select="two_generations")
+        replay(core, cat.JSON, "gen:mem", 60, select="two_generations")
+    # 3b. every class of the catalogue x cache type x grammar type: a sample of the tour, of one and of two generations
+    rest = [e for e in entries if e is not core and e.adapter != "grammar"]
+    for e in rest:
+        for gt in e.grammars:
+            if e.stateful:
+                confs = ["stateful"]
+            elif e.adapter == "problem":
+                confs = ["db"]
+            elif e.adapter in ("function", "space") or e.caches == ("none",):
+                confs = ["nocache"]
+            elif e.jac_in_run:
+                confs = ["jacinrun"] + (["jacinrun-hdf"] if T else [])
+            else:
+                confs = [c for c, kind in (("simple", "simple"), ("mem", "mem"), ("hdf-snapshot", "hdf")) if kind in e.caches]
+            for conf in confs:
+                n = {"simple": 6, "stateful": 8, "jacinrun": 6, "jacinrun-hdf": 3, "hdf-snapshot": 3, "mem": 1,
+                     "nocache": 12, "db": 30}[conf]
+                if T:
+                    n *= 4
+                if e.name == "AnalyticDiscipline" or e.name.startswith("Sobieski"):
+                    n *= 4 if e.name == "AnalyticDiscipline" else 2   # classes with their own exclusion list / __setstate__
+                replay(e, gt, conf, max(1, n // e.cost))
+            gconf = {"stateful": "gen:stateful", "db": "gen:db", "nocache": "gen:nocache",
+                     "jacinrun": "gen:jacinrun"}.get(confs[0], "gen:simple")
+            if e.name != "AnalyticDiscipline" and (gconf != "gen:simple" or "simple" in e.caches) and gconf in graph_of:
+                n = {"gen:simple": 4, "gen:nocache": 6, "gen:db": 30, "gen:stateful": 4, "gen:jacinrun": 4}[gconf] * (4 if T else 1)
+                replay(e, gt, gconf, max(1, n // e.cost), select="two_generations")
+    # 3c. shared file on a few other classes (attachment clause / D11)
+    for e in [x for x in rest if x.name in ("MDOChain", "MDAGaussSeidel", "AnalyticDiscipline")]:
+        replay(e, cat.JSON, "hdf-shared", 40 if T else 4)
+
+    # ---- 3'. ... and its execution by forked workers (each with its own interpreters and work directory)
+    import multiprocessing
+    from concurrent.futures import ProcessPoolExecutor
+
+    _CTX.update(ck=ck, graph_of=graph_of, entries=entries, jobs=jobs)
+    log(f"{len(jobs)} replay jobs, {time.time() - t_start:.0f}s")
+    nw = int(os.environ.get("C20_WORKERS", N_WORKERS))
+    if nw <= 1:
+        results = [run_job(j) for j in jobs]
+        _close_worker(0)
+    else:
+        # long jobs first; results are merged in plan order
+        order = sorted(range(len(jobs)), key=lambda i: -(jobs[i]["n"] or 10 ** 6) * next(
+            e.cost for e in entries if e.name == jobs[i]["entry"]))
+        with ProcessPoolExecutor(max_workers=nw, mp_context=multiprocessing.get_context("fork")) as pool:
+            got = dict(zip(order, pool.map(_run_indexed, order)))
+            list(pool.map(_close_worker, range(4 * nw)))
+        results = [got[i] for i in range(len(jobs))]
 
     report = {}
     pickles = Counter()
-    probes = [0]
+    gen_pickles = Counter()
     outside = []
-    n_paths_total = 0
     exhaustive_done = []
-
-    def older_last(g, path):
-        """The behaviour pickles a cache whose last written entry is not its newest one."""
-        for k in path:
-            if g.edges[k][2] == "Pickle":
-                c = g.states[g.edges[k][0]]["cache"][0]
-                return c["hasLast"] and c["hasNew"] and tuple(c["last"]) != tuple(c["newest"])
-        return False
-
-    def replay(entry, gt, conf, n_max=None, select=None):
-        """Replay the whole tour (n_max None) or a seeded sample of its behaviours that reach Pickle
-        (among those satisfying `select`, a predicate on the specification's states along the path)."""
-        nonlocal n_paths_total
-        banned = set()
-        if not entry.has_jac:
-            banned.add("Linearize")
-        ad = rp.ADAPTERS[entry.adapter](entry, gt, ck.work)
-        banned.update(ad.banned)
-        try:
-            ad.fresh()  # binds the abstract inputs to real names / values
-        except Exception as ex:  # noqa: BLE001
-            report.setdefault(entry.name, {})[f"{gt}/{conf}"] = f"not built: {type(ex).__name__}: {str(ex)[:80]}"
-            return
-        if entry.pname is None:
-            banned.add("SetDefault")
-        g, paths = tour_of(conf, banned)
-        fm = CONFIGS[graph_of[conf][1]]
-        r = rp.Replayer(ck, ad, g, config=conf, file_mode=fm, child=child)
-        if n_max is None and select is None:
-            chosen = list(range(len(paths)))
+    probes = remote_steps = expected_errors = n_paths_total = 0
+    for res in results:
+        job = res["job"]
+        slot = f"{job['gt']}/{job['conf']}"
+        cur = report.setdefault(job["entry"], {}).get(slot)
+        if isinstance(cur, dict) and isinstance(res["report"], dict):
+            for k in ("behaviours", "steps", "stopped_by_violation"):
+                cur[k] += res["report"][k]
         else:
-            withp = [i for i, p in enumerate(paths) if has_pickle(g, p) and (select is None or select(g, p))]
-            if n_max is None:
-                n_max = len(withp)
-            random.Random(f"{ck.seed}/{entry.name}/{gt}/{conf}").shuffle(withp)
-            chosen = sorted(withp[:n_max])
-        done = bad = 0
-        for j, i in enumerate(chosen):
-            path = with_method(g, paths[i], METHODS[(i + j) % len(METHODS)])
-            ok = r.run(path)
-            done += 1
-            bad += 0 if ok else 1
-            if done <= 1 and entry.name in ("Sellar1", "AnalyticDiscipline"):
-                ck.sample({"class": entry.name, "grammar": gt, "config": conf,
-                           "behaviour": [[g.edges[k][2], list(g.edges[k][3])] for k in path]})
-        ck.traces += done
-        n_paths_total += done
-        pickles.update(r.pickles)
-        probes[0] += r.probes
-        for rec in r.outside.values():
-            outside.append(dict(rec, grammar=gt))
-        report.setdefault(entry.name, {})[f"{gt}/{conf}"] = {"behaviours": done, "of_tour": len(paths), "steps": r.steps,
-                                                           "stopped_by_violation": bad}
-        if n_max is None and select is None:
-            exhaustive_done.append(f"{entry.name}/{gt}/{conf}")
-        log(f"{entry.name} {gt} {conf}: {done} behaviours, {r.steps} steps, {bad} stopped, {time.time() - t_start:.0f}s")
-
-    T = ck.thorough
-    try:
-        # 3a. the core class: the whole transition tour where affordable, a large sample elsewhere
-        #     (every full cache costs a round trip to the multiprocessing manager: mem / hdf are slow)
-        core = next(e for e in entries if e.name == "Sellar1")
-        replay(core, cat.JSON, "simple", None)
-        replay(core, cat.JSON, "hdf-snapshot", 1500 if T else 150)
-        replay(core, cat.JSON, "hdf-shared", 1000 if T else 120)
-        replay(core, cat.JSON, "mem", 300 if T else 40)
-        # every depth-3 history that leaves the last written entry of the memory cache older than its newest one
-        replay(core, cat.JSON, "mem-p3", 400 if T else None, select=older_last)
-        if T:
-            # the same histories with an HDF5Cache (its restored last entry is reported as an observation)
-            replay(core, cat.JSON, "hdf-p3", 60, select=older_last)
-        for name in ("MDAGaussSeidel", "AnalyticDiscipline", "MDOChain"):
-            replay(next(e for e in entries if e.name == name), cat.JSON, "mem-p3", 24 if T else 8, select=older_last)
-        replay(core, cat.SIMPLE, "simple", None if T else 300)
-        if T:
-            replay(core, cat.SIMPLE, "hdf-snapshot", 600)
-        # 3b. every class of the catalogue x cache type x grammar type: a sample of the tour
-        rest = [e for e in entries if e is not core]
-        slots = []
-        for e in rest:
-            for gt in e.grammars:
-                if e.stateful:
-                    confs = ["stateful"]
-                elif e.adapter == "problem":
-                    confs = ["db"]
-                elif e.adapter in ("function", "space") or e.caches == ("none",):
-                    confs = ["nocache"]
-                elif e.jac_in_run:
-                    confs = ["jacinrun"] + (["jacinrun-hdf"] if T else [])
-                else:
-                    confs = [c for c, kind in (("simple", "simple"), ("mem", "mem"), ("hdf-snapshot", "hdf")) if kind in e.caches]
-                for conf in confs:
-                    slots.append((e, gt, conf))
-        for e, gt, conf in slots:
-            n = {"simple": 6, "stateful": 8, "jacinrun": 6, "jacinrun-hdf": 3, "hdf-snapshot": 3, "mem": 1,
-                 "nocache": 12, "db": 30}[conf]
-            if T:
-                n *= 4
-            if e.name == "AnalyticDiscipline" or e.name.startswith("Sobieski"):
-                n *= 4 if e.name == "AnalyticDiscipline" else 2   # classes with their own exclusion list / __setstate__
-            replay(e, gt, conf, max(1, n // e.cost))
-        # 3c. shared file on a few other classes (attachment clause / D11)
-        for e in [x for x in rest if x.name in ("MDOChain", "MDAGaussSeidel", "AnalyticDiscipline")]:
-            replay(e, cat.JSON, "hdf-shared", 40 if T else 4)
-    finally:
-        child.close()
+            report[job["entry"]][slot] = res["report"]
+        ck.violations += res["violations"]
+        ck.observations += res["observations"]
+        ck.traces += res["traces"]
+        for smp in res["samples"]:
+            ck.sample(smp, limit=8)
+        for k, v in res["known"].items():
+            ck.known_hits[k] = ck.known_hits.get(k, 0) + v
+        pickles.update(res["pickles"])
+        gen_pickles.update(res["gen_pickles"])
+        probes += res["probes"]
+        remote_steps += res["remote_steps"]
+        expected_errors += res["expected_errors"]
+        n_paths_total += res["paths"]
+        outside += res["outside"]
+        if res["exhaustive"] and res["exhaustive"] not in exhaustive_done:
+            exhaustive_done.append(res["exhaustive"])
+        if res["log"]:
+            log(res["log"])
+    log(f"replays done {time.time() - t_start:.0f}s")
 
     ck.exhaustive = False
     ck.extra["exhaustive_tours"] = exhaustive_done
@@ -336,19 +554,35 @@ def run(ck: Check):
     ck.extra["classes_skipped"] = skipped
     ck.extra["grammar_type_not_settable"] = sorted(e.name for e in entries if e.adapter == "disc" and len(e.grammars) == 1)
     ck.extra["per_class"] = report
-    ck.extra["executions_in_child_process"] = probes[0]
+    ck.extra["executions_in_child_process"] = probes
+    ck.extra["actions_performed_in_another_interpreter"] = remote_steps
+    ck.extra["calls_refused_as_specified"] = expected_errors
+    ck.extra["replay_workers"] = nw
     # deviations from the model that a never-pickled twin shows as well (not C20 matters; see Replayer.twin_agrees)
     ck.extra["not_due_to_serialization"] = outside[:60]
     ck.extra["pickles_by_cache_moment_method"] = {"/".join(k): v for k, v in sorted(pickles.items())}
+    ck.extra["pickles_by_generation_method_route"] = {"/".join(map(str, k)): v for k, v in sorted(gen_pickles.items())}
     ck.assumptions += [
         "HDF5Cache behavioural equivalence is replayed with the copy attached to a byte copy of the file taken at "
         "pickling time (FileMode=snapshot); the shared-file configuration is replayed separately (finding D11)",
         "ClearCache on an HDF5 node that was never written is not taken (HDF5Cache.clear raises KeyError: D13, "
         "outside this property)",
         "values of output/Jacobian labels are those of a never-pickled cache-less instance of the same class",
+        "generations > 1 are replayed without file-backed caches; the graph of the generations is dumped for one "
+        "pickling method and the methods of the successive Pickles are assigned in rotation (Pickle(m) is the same "
+        "step of Lifecycle.tla for every m)",
+        "an input that is neither x nor p and whose default was removed by ClearDefaults is supplied by the caller "
+        "at its constructor value",
     ]
     if not pickles and not ck.violations and not ck.known_hits:
         raise MachineryError("no behaviour reached Pickle")
+    clean = not ck.violations
+    if clean and not any(k[0] >= 2 for k in gen_pickles):
+        raise MachineryError("vacuity: no restored object was pickled again")
+    if clean and not remote_steps:
+        raise MachineryError("vacuity: no action was performed in another interpreter")
+    if clean and not expected_errors:
+        raise MachineryError("vacuity: no call was refused for a missing required input")
     # ---- specification growth (outside C20 as stated): execution status automaton, observers and
     # execution statistics of monitored processes (ExecStatus*.tla)
     from ..growth import g01_exec_status
